@@ -239,7 +239,7 @@ class RunningChunkBy(object):
         # todo: add example of event selection
         self._cs = chunk_size
         if not callable(container):
-            raise LenaTypeError(
+            raise lena.core.LenaTypeError(
                 "container must be a callable constructor for new chunks"
             )
         self._container = container
